@@ -45,7 +45,9 @@ def words(t):
     return t.split()
 
 
-def check_wrapped(lines, text, width, what, errs):
+def check_wrapped(lines, text, width, what, errs, enabled=True):
+    if not enabled:
+        return
     if [w for l in lines for w in words(l)] != words(text):
         errs.append(("words_preserved/wrap_at_space",
                      f"{what}: words of rendered lines {[w for l in lines for w in words(l)]!r} != words of text {words(text)!r}"))
@@ -54,7 +56,9 @@ def check_wrapped(lines, text, width, what, errs):
             errs.append(("wrap_at_space", f"{what}: line longer than {width} that could have been wrapped: {l!r}"))
 
 
-def check(case, out):
+def check(case, out, wrap_clauses=True):
+    """wrap_clauses=False: do not judge the wrapping of label/message text (used for the
+    tie-only stream of texts with words longer than the width, a listed known finding)."""
     errs = []
     if not well_formed(case):
         return errs
@@ -72,10 +76,10 @@ def check(case, out):
             if ch.get("message"):
                 tail_expect += [ch["level"] + ":"] + words(ch["message"])
         got = [w for l in buf for w in words(l)]
-        if got != tail_expect:
+        if got != tail_expect and wrap_clauses:
             errs.append(("words_preserved/wrap_at_space", f"span-less diagnostic: words {got!r} != {tail_expect!r}"))
         for l in buf:
-            if len(l) > MSG_W and len(words(l)) > 1:
+            if len(l) > MSG_W and len(words(l)) > 1 and wrap_clauses:
                 errs.append(("wrap_at_space", f"message line longer than {MSG_W}: {l!r}"))
         return errs
     l1, c1, l2, c2 = case["span"]
@@ -160,7 +164,7 @@ def check(case, out):
             r_ = row(i)
             lab_lines.append(r_[1])
             i += 1
-        check_wrapped(lab_lines, label or "", LABEL_W, f"{name} label", errs)
+        check_wrapped(lab_lines, label or "", LABEL_W, f"{name} label", errs, wrap_clauses)
         # all rows in the removed columns are whitespace (only indentation is trimmed)
         for l in considered:
             if l[:remove].strip() != "":
@@ -174,11 +178,11 @@ def check(case, out):
             tail_expect += [ch["level"] + ":"] + words(ch["message"])
     rest = buf[i:]
     got = [w_ for l in rest for w_ in words(l)]
-    if got != tail_expect:
+    if got != tail_expect and wrap_clauses:
         errs.append(("words_preserved/wrap_at_space", f"messages: words {got!r} != {tail_expect!r}"))
     if (case.get("message") or any(ch.get("message") for ch in children)) and (not rest or rest[0] != ""):
         errs.append(("lines_shown", f"no separating empty line before the message: {rest[:1]!r}"))
     for l in rest:
-        if len(l) > MSG_W and len(words(l)) > 1:
+        if len(l) > MSG_W and len(words(l)) > 1 and wrap_clauses:
             errs.append(("wrap_at_space", f"message line longer than {MSG_W}: {l!r}"))
     return errs
